@@ -283,7 +283,9 @@ class WebSocket:  # pragma: no cover
         event = await self.asgi_receive()
         if event['type'] != 'websocket.receive':
             raise OSError()
-        return event.get('bytes') or event.get('text')
+        data = event.get('bytes')
+        # an empty binary frame is a message, not the end of the connection
+        return data if data is not None else event.get('text')
 
 
 _async = {
